@@ -29,6 +29,7 @@ import (
 
 	"verif/harness/lib/c07"
 	"verif/harness/lib/cfgnorm"
+	"verif/harness/lib/fakehaproxy"
 	"verif/harness/lib/hx"
 	"verif/harness/lib/pipeline"
 	"verif/harness/lib/world"
@@ -43,16 +44,37 @@ type state struct {
 	findings []c07.Finding
 	applyErr error
 	scanErr  error
+	cmds     int  // socket mode: commands the controller sent to haproxy
+	reloaded bool // socket mode: a reload was asked for
 }
 
 var runSeq int
 
-// run applies the history and returns the state after every batch.
+// run applies the history and returns the state after every batch. In socket mode the
+// admin and master sockets are served by lib/fakehaproxy: dynamic updates are applied to
+// its running state and, when the controller asks for a reload, the fake loads the
+// written files as a new worker would (it refuses duplicated server names, as haproxy does).
 func run(o c07.Opt, h [][]pipeline.Change, upto int) ([]state, error) {
 	runSeq++
 	dir := filepath.Join(workdir, fmt.Sprintf("p%d", runSeq))
 	os.RemoveAll(dir)
-	p, err := pipeline.NewE(o.Pipeline(dir))
+	po := o.Pipeline(dir + "/p")
+	var fake *fakehaproxy.Fake
+	if o.Socket {
+		if err := os.MkdirAll(dir+"/s", 0o755); err != nil {
+			return nil, err
+		}
+		po.MasterSocket = dir + "/s/m.sock"
+		po.AdminSocket = dir + "/s/a.sock"
+		fake = fakehaproxy.New(po.Dir + "/etc/haproxy")
+		socks, err := fakehaproxy.Serve(fake, po.AdminSocket, po.MasterSocket)
+		if err != nil {
+			return nil, err
+		}
+		defer socks.Close()
+	}
+	defer os.RemoveAll(dir)
+	p, err := pipeline.NewE(po)
 	if err != nil {
 		return nil, err
 	}
@@ -63,6 +85,10 @@ func run(o c07.Opt, h [][]pipeline.Change, upto int) ([]state, error) {
 			break
 		}
 		st := state{}
+		before := p.Reloads()
+		if fake != nil {
+			fake.Begin(nil)
+		}
 		st.applyErr = p.Apply(b)
 		st.cfg, st.scanErr = c07.Scan(p.Dir(), p.Prefix())
 		if st.scanErr == nil {
@@ -71,6 +97,17 @@ func run(o c07.Opt, h [][]pipeline.Change, upto int) ([]state, error) {
 			// problem (missing file, duplicated backend, stray line) must be a finding here
 			if nf, err := cfgnorm.Load(p.Dir(), p.Prefix()); err == nil && len(nf.Problems) > 0 && len(st.findings) == 0 {
 				st.findings = append(st.findings, c07.Finding{Kind: "cfgnorm-problem-missed-by-scan", What: strings.Join(nf.Problems, "; ")})
+			}
+		}
+		if fake != nil {
+			ex, _ := fake.Snapshot()
+			st.cmds = len(ex)
+			st.reloaded = p.Reloads() > before
+			if st.reloaded {
+				// the reload queue would run the reload now
+				if err := fake.Reload(); err != nil && len(st.findings) == 0 {
+					st.findings = append(st.findings, c07.Finding{Kind: "reload-refused", What: "the (simulated) haproxy refused the written files: " + err.Error()})
+				}
 			}
 		}
 		out = append(out, st)
@@ -347,6 +384,14 @@ func main() {
 			}
 			scens = append(scens, scen{op, world.GenHistory(rng, world.Full(), 1+rng.Intn(4), 3), "world"})
 		}
+		nChurn := o.Count(120, 4000)
+		if o.Search {
+			nChurn = o.Count(1000, 8000)
+		}
+		for i := 0; i < nChurn; i++ {
+			op, h := c07.GenChurn(rng, 3+rng.Intn(6))
+			scens = append(scens, scen{op, h, "churn-socket-mode"})
+		}
 		nUnit := o.Count(400, 20000)
 		for i := 0; i < nUnit; i++ {
 			switch i % 3 {
@@ -390,6 +435,16 @@ func main() {
 			if st.scanErr != nil {
 				res.Fail(hx.Failure{Key: "C07/scan-error", What: st.scanErr.Error(), Input: input})
 				continue
+			}
+			if sc.opt.Socket && bi > 0 {
+				switch {
+				case st.reloaded:
+					res.Count("socket_mode_update=reload")
+				case st.cmds > 0:
+					res.Count("socket_mode_update=dynamic")
+				default:
+					res.Count("socket_mode_update=noop")
+				}
 			}
 			canon, _ := json.Marshal(st.cfg)
 			nt := features(st.cfg, res)
